@@ -4,6 +4,9 @@
    Models: Device/DLCDAnim.v  - the four __redu_lcd_start_* / __redu_lcd_tick_* helper pairs the emitter
                                 prints (emitter.py 348-664), the per-LCD tick list, and the tick-injection
                                 rule (parser.py: lcd_tick_names / LCDTick; emitter.py: registration pass of emit());
+           Device/DLCDAnimW.v - the clock arithmetic of the tick helpers at the width W of unsigned long (millis(),
+                                last_step, elapsed, speed_ms are residues modulo 2^W; W is a parameter of every
+                                theorem, 32 on AVR, 64 under the mock's compiler): [drun1W] over TRUE tick times;
            Host/LCDAnim.v     - LCD.animate / LCD.tick / _AnimationState (Displays/LCD.py 277-430).
    millis() / now_ms is an explicit argument: the statements quantify over every list of tick times;
    [tick_times_ok] = positive and non-decreasing (the property's quantifier).  Widths: 1 <= cols.
@@ -23,6 +26,7 @@ From Coq Require Import ZArith List Bool.
 From RV Require Import Host.LCDAnim Device.DLCDAnim Proofs.LCDAnimP Proofs.LCDAnimP2.
 From RV Require Import Gen.LcdAnimTables Proofs.LCDAnimG Proofs.LCDAnimP3 Proofs.LCDAnimP4.
 From RV Require Import Device.DLCDInject Proofs.LCDInjectP.
+From RV Require Import Device.DLCDAnimW Proofs.LCDAnimW.
 Import ListNotations.
 Open Scope Z_scope.
 
@@ -124,6 +128,101 @@ Theorem C18_no_step_lost_device :
   no_step_lost speed 0 (snd (drun1 sty cols (fst (dstart sty cols row text speed true)) nows)).
 Proof. exact no_step_lost_device. Qed.
 Print Assumptions C18_no_step_lost_device.
+
+(* ------------------------------------------------------------------ the width of unsigned long *)
+
+(* The emitted limiter is computed in W-bit unsigned arithmetic.  While the clock has not rolled over (every
+   tick time below 2^W - the property's quantifier: positive non-decreasing timestamps) the W-bit code IS the
+   Z model above: same final state, same step flags, same cell writes at every tick - for EVERY clock value
+   below 2^W, in particular for steps taken within speed_ms of the largest unsigned long. *)
+Theorem C18_width_model_agrees_device :
+  forall (W : Z) (sty : style) (cols row : Z) (text : list Z) (speed : Z) (lp : bool) (ts : list Z),
+  tick_times_ok ts -> below_width W ts ->
+  drun1W W sty cols (fst (dstart_emit W sty cols row text speed lp)) ts =
+  drun1 sty cols (fst (dstart_emit W sty cols row text speed lp)) ts.
+Proof. exact width_model_agrees_device. Qed.
+Print Assumptions C18_width_model_agrees_device.
+
+(* ... and for a display with several animations (what loop() runs) *)
+Theorem C18_width_model_agrees_display :
+  forall (W cols : Z) (calls : list dcall) (ts : list Z),
+  tick_times_ok ts -> below_width W ts ->
+  drun_allW W cols (fst (dstart_all cols calls)) ts = drun_all cols (fst (dstart_all cols calls)) ts.
+Proof. exact width_model_agrees_display. Qed.
+Print Assumptions C18_width_model_agrees_display.
+
+(* hence the rate limit of the W-bit code, every width, every speed_ms below 2^W, every clock value below 2^W *)
+Theorem C18_rate_limit_device_width :
+  forall (W : Z) (sty : style) (cols row : Z) (text : list Z) (speed : Z) (lp : bool) (ts : list Z),
+  0 <= W -> speed < 2 ^ W -> tick_times_ok ts -> below_width W ts ->
+  rate_limited speed (step_times (snd (drun1W W sty cols (fst (dstart_emit W sty cols row text speed lp)) ts))).
+Proof. exact rate_limit_device_width. Qed.
+Print Assumptions C18_rate_limit_device_width.
+
+(* ... and its exact schedule *)
+Theorem C18_step_schedule_device_width :
+  forall (W : Z) (sty : style) (cols row : Z) (text : list Z) (speed : Z) (lp : bool) (ts : list Z),
+  1 <= cols -> tick_times_ok ts -> below_width W ts ->
+  step_flags (snd (drun1W W sty cols (fst (dstart_emit W sty cols row text speed lp)) ts)) =
+  due_flags (ulong_cast W speed) lp 0 (dsteps_total sty cols text) ts.
+Proof. exact step_schedule_device_width. Qed.
+Print Assumptions C18_step_schedule_device_width.
+
+(* non-vacuity: a 32-bit clock 150 ms below its largest value, never wrapping: two steps, then three early ticks *)
+Example C18_ex_device_high_clock :
+  (tick_times_ok high_ticks /\ below_width 32 high_ticks) /\
+  step_flags (snd (drun1W 32 Blink 8 (fst (dstart_emit 32 Blink 8 0 [72; 105] 100 true)) (2 ^ 32 - 150 :: high_ticks)))
+  = [true; true; false; false; false].
+Proof. exact (conj ex_high_ticks_ok ex_device_high_clock). Qed.
+Print Assumptions C18_ex_device_high_clock.
+
+(* why the width is in the model: the limiter written as an absolute deadline (now < last_step + speed_ms, the
+   sum in W bits - over Z the same test as the emitted one) steps on every tick of that history.  [dgate_deadline]
+   is NOT the emitted code; it is the counter-model showing that the theorems above distinguish the two forms. *)
+Theorem C18_deadline_form_refuted :
+  exists (W : Z) (st : dstate) (ts : list Z),
+    tick_times_ok ts /\ below_width W ts /\ 0 < d_speed st < 2 ^ W /\ d_last st = 0 /\ d_active st = true /\
+    deadline_flags W st ts = [true; true; true; true] /\ ~ rate_limited (d_speed st) ts.
+Proof. exact deadline_form_refuted. Qed.
+Print Assumptions C18_deadline_form_refuted.
+
+(* Across the roll-over of millis() (TRUE tick times of any size; the values millis() returns are then no longer
+   non-decreasing, so this is more than the property asks): the W-bit code still produces the trace of the Z model
+   run on the true times - hence every theorem above - provided consecutive ticks are less than 2^W - speed_ms
+   apart and millis() never returns exactly 0 at a tick. *)
+Theorem C18_rollover_trace_device_partial :
+  forall (W : Z) (sty : style) (cols row : Z) (text : list Z) (speed : Z) (lp : bool) (ts : list Z),
+  0 <= W -> tick_times_ok ts -> gaps_below (2 ^ W - ulong_cast W speed) 0 ts -> never_reads_zero W ts ->
+  snd (drun1W W sty cols (fst (dstart_emit W sty cols row text speed lp)) ts) =
+  snd (drun1 sty cols (fst (dstart_emit W sty cols row text speed lp)) ts).
+Proof. exact rollover_trace_device. Qed.
+Print Assumptions C18_rollover_trace_device_partial.
+
+Theorem C18_rate_limit_device_rollover_partial :
+  forall (W : Z) (sty : style) (cols row : Z) (text : list Z) (speed : Z) (lp : bool) (ts : list Z),
+  0 <= W -> speed < 2 ^ W -> tick_times_ok ts ->
+  gaps_below (2 ^ W - ulong_cast W speed) 0 ts -> never_reads_zero W ts ->
+  rate_limited speed (step_times (snd (drun1W W sty cols (fst (dstart_emit W sty cols row text speed lp)) ts))).
+Proof. exact rate_limit_device_rollover. Qed.
+Print Assumptions C18_rate_limit_device_rollover_partial.
+
+Example C18_ex_device_rollover :
+  (tick_times_ok roll_ticks /\ gaps_below (2 ^ 8 - 100) 0 roll_ticks /\ never_reads_zero 8 roll_ticks) /\
+  step_flags (snd (drun1W 8 Blink 8 (fst (dstart_emit 8 Blink 8 0 [72; 105] 100 true)) roll_ticks))
+  = [true; true; false; true; false; true; true; false; true].
+Proof. exact (conj ex_roll_ticks_ok ex_device_rollover). Qed.
+Print Assumptions C18_ex_device_rollover.
+
+(* the guard's last clause is necessary: a step taken in the millisecond in which millis() reads 0 stores
+   last_step = 0, the code's marker for "clock not running", and the tick 1 ms later steps again.  The register
+   values of this history (100, 156, 0, 1) are not non-decreasing: outside the property's quantifier - a remark
+   about the code, not a finding. *)
+Theorem C18_rollover_zero_reading_refuted :
+  exists (W : Z) (ts : list Z), 0 <= W /\ tick_times_ok ts /\ gaps_below (2 ^ W - ulong_cast W 100) 0 ts /\
+    step_flags (snd (drun1W W Blink 8 (fst (dstart_emit W Blink 8 0 [72; 105] 100 true)) ts)) = [true; false; true; true] /\
+    ~ rate_limited 100 (step_times (snd (drun1W W Blink 8 (fst (dstart_emit W Blink 8 0 [72; 105] 100 true)) ts))).
+Proof. exact rollover_zero_reading_refuted. Qed.
+Print Assumptions C18_rollover_zero_reading_refuted.
 
 (* one LCDTick = exactly one tick helper call per registered animation of that display, in order *)
 Theorem C18_tick_each_once :
